@@ -534,4 +534,60 @@ pub(crate) mod verif_kani_io {
         let big = vec![0u8; FEOX_BLOCK_SIZE + 1];
         assert!(metadata_block(&big).is_err());
     }
+
+    // ---------------------------------------------------------------- coalesce_extents (real), 2 extents
+    fn stub_sort2<T, F>(v: &mut [T], is_less: &mut F)
+    where
+        F: FnMut(&T, &T) -> bool,
+    {
+        assert!(v.len() <= 2, "sort stub: at most two elements");
+        if v.len() == 2 && is_less(&v[1], &v[0]) {
+            v.swap(0, 1);
+        }
+    }
+
+    #[kani::proof]
+    #[kani::unwind(4)]
+    #[kani::stub(core::slice::sort::unstable::sort, stub_sort2)]
+    fn coalesce_extents_contract() {
+        let a = (kani::any::<u64>(), kani::any::<usize>());
+        let b = (kani::any::<u64>(), kani::any::<usize>());
+        let n: usize = kani::any();
+        kani::assume(n <= 2);
+        let input = [a, b];
+        kani::assume(a.1 < (1usize << 32) && b.1 < (1usize << 32));
+        let r = coalesce_extents(&input[..n]);
+        // independent statement for up to two extents (lengths as the callers produce them: < 2^32)
+        let bad = |e: (u64, usize)| e.1 == 0 || e.0.checked_add(e.1 as u64).is_none();
+        match &r {
+            Ok(out) => {
+                if n == 0 {
+                    assert!(out.is_empty());
+                } else if n == 1 {
+                    assert!(!bad(a) && out.len() == 1 && out[0] == a);
+                } else {
+                    assert!(!bad(a) && !bad(b));
+                    let (lo, hi) = if a.0 <= b.0 { (a, b) } else { (b, a) };
+                    let lo_end = lo.0 + lo.1 as u64;
+                    assert!(lo_end <= hi.0, "overlapping extents are rejected, never merged");
+                    if lo_end == hi.0 {
+                        assert!(out.len() == 1 && out[0].0 == lo.0 && out[0].1 == lo.1 + hi.1, "exactly adjacent runs are merged; the union of blocks is preserved");
+                    } else {
+                        assert!(out.len() == 2 && out[0] == lo && out[1] == hi, "otherwise sorted by start, unchanged");
+                    }
+                }
+            }
+            Err(_) => {
+                let overlap = n == 2 && !bad(a) && !bad(b) && {
+                    let (lo, hi) = if a.0 <= b.0 { (a, b) } else { (b, a) };
+                    lo.0 + lo.1 as u64 > hi.0
+                };
+                assert!((n >= 1 && bad(a)) || (n == 2 && bad(b)) || overlap, "Err only for an empty/overflowing extent or an overlap");
+            }
+        }
+        kani::cover!(r.is_ok() && n == 2 && r.as_ref().unwrap().len() == 1, "merge");
+        kani::cover!(r.is_ok() && n == 2 && r.as_ref().unwrap().len() == 2, "kept apart");
+        kani::cover!(r.is_err() && n == 2, "rejected");
+        std::mem::forget(r);
+    }
 }
